@@ -35,7 +35,7 @@ import (
 
 const c28KeyHeader = "header-threshold-no-quorum-intersection"
 
-const c28Rule = "thresholds measured by search for the least accepted signer count (full scan of k for N <= 64, binary search plus boundary and spot checks above): block validator and bookkeeper multisig address N = 1..10 quick / 1..16 thorough (16 = MULTI_SIG_MAX_PUBKEY_SIZE) with real signatures; getCommitConsensus pure counting for every N in 4..300 quick / 4..2000 thorough (every C for N <= 64, C in {1, mid, max} above; message shapes: one committer naming endorsers, committers only, half / all / the first e committers committing for the EMPTY block, e empty commits for other proposers ahead of the plain ones, e = 1..N-1 for N <= 16 and C+1 above) and rapid-drawn N < 2^20 (log-uniform, biased to 3j+1 boundaries); commitDone through a real BlockPool with genuine signatures for every (N,C), N <= 10 quick / 16 thorough (paths: one commit message, commit messages only, all commits for the empty block, C+1 empty commits for other proposers first, endorse signatures only, every signer endorsing the block and then the empty block of the same proposer, and the reverse order); header check on VBFT ledgers for every (N,C), 7 <= N <= 10 quick / 16 thorough, every listing size L and signature count k; the quantifier over all naturals N, C is NOT exhausted — this is bounded exploration; non-trivial = a configuration with the largest admissible C (C = (N-1)/3, where the intersection inequality is tight) or a signature-carrying measurement; distinct = different (kind, shape, N, C)"
+const c28Rule = "thresholds measured by search for the least accepted signer count (full scan of k for N <= 64, binary search plus boundary and spot checks above): block validator and bookkeeper multisig address N = 1..10 quick / 1..16 thorough (16 = MULTI_SIG_MAX_PUBKEY_SIZE) with real signatures (k signers as the first k, the last k, with garbage padding, and k signers in their own list slots with their signatures repeated in earlier slots); getCommitConsensus pure counting for every N in 4..300 quick / 4..2000 thorough (every C for N <= 64, C in {1, mid, max} above; message shapes: one committer naming endorsers, committers only, half / all / the first e committers committing for the EMPTY block, e empty commits for other proposers ahead of the plain ones, e = 1..N-1 for N <= 16 and C+1 above) and rapid-drawn N < 2^20 (log-uniform, biased to 3j+1 boundaries); commitDone through a real BlockPool with genuine signatures for every (N,C), N <= 10 quick / 16 thorough (paths: one commit message, commit messages only, all commits for the empty block, C+1 empty commits for other proposers first, endorse signatures only, every signer endorsing the block and then the empty block of the same proposer, and the reverse order); header check on VBFT ledgers for every (N,C), 7 <= N <= 10 quick / 16 thorough, every listing size L and signature count k; the quantifier over all naturals N, C is NOT exhausted — this is bounded exploration; non-trivial = a configuration with the largest admissible C (C = (N-1)/3, where the intersection inequality is tight) or a signature-carrying measurement; distinct = different (kind, shape, N, C)"
 
 // c28Judge applies the intersection oracle to one measured quorum. It returns "" or the violation.
 func c28Judge(kind string, n, c, q int) string {
@@ -133,17 +133,35 @@ func TestC28_BlockValidator(t *testing.T) {
 			t.Fatalf("apply carrier block for N=%d: %v", n, err)
 		}
 		prev := b.Header
-		accept := func(k int, fromEnd bool, pad bool) bool {
+		accept := func(k int, fromEnd bool, pad bool, repeat bool) bool {
 			h := &types.Header{Version: 0, PrevBlockHash: prev.Hash(), Timestamp: prev.Timestamp + 1, Height: prev.Height + 1,
 				ConsensusData: uint64(1000*n + k), NextBookkeeper: next}
 			hash := h.Hash()
 			h.Bookkeepers = bks
-			for i := 0; i < k; i++ {
-				s := keys[i]
-				if fromEnd {
-					s = keys[n-1-i]
+			mNeed := n - (n-1)/3
+			if repeat && k >= 1 && k < mNeed {
+				// k distinct signers, mNeed signatures: the signers are the keys listed at positions
+				// mNeed-k..mNeed-1 and sign in their OWN slot; every earlier slot repeats one of those
+				// signatures byte for byte (a signature placed before and in its signer's own slot)
+				own := map[int][]byte{}
+				for j := mNeed - k; j < mNeed; j++ {
+					own[j] = signFresh(keys[j], hash)
 				}
-				h.SigData = append(h.SigData, signFresh(s, hash))
+				for p := 0; p < mNeed; p++ {
+					if sg, ok := own[p]; ok {
+						h.SigData = append(h.SigData, sg)
+					} else {
+						h.SigData = append(h.SigData, own[mNeed-1-p%k])
+					}
+				}
+			} else {
+				for i := 0; i < k; i++ {
+					s := keys[i]
+					if fromEnd {
+						s = keys[n-1-i]
+					}
+					h.SigData = append(h.SigData, signFresh(s, hash))
+				}
 			}
 			if pad {
 				for len(h.SigData) < n {
@@ -162,12 +180,13 @@ func TestC28_BlockValidator(t *testing.T) {
 			return verr == nil
 		}
 		for _, variant := range []struct {
-			name         string
-			fromEnd, pad bool
-		}{{"first-k", false, false}, {"last-k", true, false}, {"first-k+garbage-padding", false, true}} {
+			name                 string
+			fromEnd, pad, repeat bool
+		}{{"first-k", false, false, false}, {"last-k", true, false, false}, {"first-k+garbage-padding", false, true, false},
+			{"k-signers-in-own-slots+repeats-in-earlier-slots", false, false, true}} {
 			q := -1
 			for k := 0; k <= n; k++ {
-				ok := accept(k, variant.fromEnd, variant.pad)
+				ok := accept(k, variant.fromEnd, variant.pad, variant.repeat)
 				if ok && q < 0 {
 					q = k
 				}
